@@ -4,8 +4,11 @@
 (* cmd/cache code (one JSON line per reachable state, env CASES).           *)
 EXTENDS Cache, Json, IOUtils, CSV
 
+RECURSIVE HistId(_)
+HistId(h) == IF h = <<>> THEN "" ELSE Head(h).a \o ToString(Head(h).n) \o (IF Len(h) > 1 THEN "." ELSE "") \o HistId(Tail(h))
+
 EmitCase ==
   IF "CASES" \in DOMAIN IOEnv /\ pc # "none"
-  THEN CSVWrite("%1$s", <<ToJson([id |-> "h", hist |-> hist])>>, IOEnv.CASES)
+  THEN CSVWrite("%1$s", <<ToJson([id |-> HistId(hist), hist |-> hist])>>, IOEnv.CASES)
   ELSE TRUE
 =============================================================================
